@@ -262,12 +262,11 @@ func checkRestoredDump(rec *snapRec, now *Dump) *Violation {
 func (r *Run) execTimeline(t *Task) {
 	t.Yield("timeline", NeedWriter)
 	for round := 0; round < 2; round++ {
-		r.mu.Lock()
-		meta := r.meta
-		r.mu.Unlock()
 		calls := 0
-		fresh := fmt.Sprintf("timeline-%d-%d", r.restores, r.tlCounter)
+		r.mu.Lock()
+		fresh := fmt.Sprintf("timeline-%s-%d", t.Name, r.tlCounter)
 		r.tlCounter++
+		r.mu.Unlock()
 		got, err := r.db.GetTimelineId(boltz.TimelineModeDefault, func() (string, error) {
 			calls++
 			return fresh, nil
@@ -275,6 +274,11 @@ func (r *Run) execTimeline(t *Task) {
 		if err != nil {
 			r.snapViolation("timeline-error", "GetTimelineId failed: %v", err)
 		}
+		// the call may have waited for a restore before its transaction ran; nothing else ran between that
+		// transaction and this point, so the model's markers are those the transaction must have seen
+		r.mu.Lock()
+		meta := r.meta
+		r.mu.Unlock()
 		wantCalls, want := 0, strOr(meta.TimelineId)
 		if meta.Reset {
 			wantCalls, want = 1, fresh
@@ -289,6 +293,9 @@ func (r *Run) execTimeline(t *Task) {
 			r.meta.Reset = false
 			r.meta.TimelineId = &fresh
 			r.mu.Unlock()
+		}
+		if round == 0 {
+			t.Yield("timeline.again", NeedWriter)
 		}
 	}
 }
